@@ -19,6 +19,9 @@ What is understood (nothing more):
     output are dropped (their statements must be call-free);
   * locals of type int / bool / list of Waste / dict / list of error strings (strings are opaque: only the length of
     such a list is kept) / `DigestResult` / Waste / `datetime.now()`; re-assignment, `+=`, `.append`, `.update`;
+    what a digester hands back is a `PyVal` (foreign code: a dict-like value, or a truthy value that `dict.update`
+    cannot merge): it can be tested for truth, bound, returned, and merged with `<dict>.update(v)`, which then is a
+    point where an exception can arise AFTER a prefix was merged (`pyDictUpdateM`);
   * expressions: `len`, `+ - * //`, comparisons, `and or not`, `x if c else y`, slices `l[:e]`, `l[e:]`, `l[:]` with
     Python's meaning for negative and None-able bounds, `[w for w in l if test]`, `w in l`, `w.waste_type == WasteType.X`,
     `now - w.created_at` (TypeError on a timezone-aware timestamp) compared with `retention_period`;
@@ -75,8 +78,9 @@ WTYPES = {"MISFOLDED_PROTEIN": "WType.misfolded", "EXPIRED_CACHE": "WType.expire
           "ORPHANED_RESOURCE": "WType.orphaned", "TOXIC_BYPRODUCT": "WType.toxic"}
 LEAN_T = {"nat": "Nat", "int": "Int", "bool": "Bool", "oint": "Option Int", "items": "List Item", "item": "Item",
           "dict": "List (Nat × Item)", "errs": "List Unit", "unit": "Unit", "time": "Nat", "tdelta": "Int",
-          "dres": "PyDigestResult", "wtype": "WType", "opaque": "Unit"}
-TYPE_ORDER = ["dict", "errs", "items", "item", "dres", "nat", "int", "bool", "oint", "time", "tdelta", "wtype", "opaque"]
+          "dres": "PyDigestResult", "wtype": "WType", "opaque": "Unit", "dval": "PyVal"}
+TYPE_ORDER = ["dict", "errs", "items", "item", "dres", "nat", "int", "bool", "oint", "time", "tdelta", "wtype", "dval",
+              "opaque"]
 BENIGN = {"len", "str", "repr", "int", "type", "round", "float", "isinstance", "min", "max", "dict", "list", "tuple",
           "bool", "getattr", "hasattr", "sorted", "sum", "format"}
 WARN_LEVELS = {"warning", "warn", "error", "exception", "critical", "fatal"}
@@ -384,6 +388,8 @@ class Translator:
             return "()"
         if t == "elist" and target in ("items", "errs"):
             return "[]"
+        if target == "dval" and t == "dict":
+            return f"(PyVal.dict {c})"
         bad(node, f"{what} of type {t} where {target} is expected")
 
     # ---------------------------------------------------------------------------------------------- expressions
@@ -744,6 +750,8 @@ class Translator:
             return f"(decide ({c} ≠ 0))", "bool"
         if t in ("items", "errs", "dict"):
             return f"(!{c}.isEmpty)", "bool"
+        if t == "dval":
+            return f"(PyVal.truthy {c})", "bool"
         if t == "elist":
             return "false", "bool"
         if t == "callback":
@@ -1055,7 +1063,7 @@ class Translator:
             if a[1] != "item" or a[0] != eff[2]:
                 bad(call, "a digester called on an item other than the one it was looked up for")
             r = f"d{self.fresh_no()}"
-            okc = cont((r + "v", "dict"), env, ind + 1)
+            okc = cont((r + "v", "dval"), env, ind + 1)
             rz = self.raise_path(env, call, ind + 1)
             return (f"{pad}let {r} := pyCallDigester cfg {a[0]}\n"
                     f"{pad}let s : PyS := {{ s with toxicLog := s.toxicLog ++ {r}.2 }}\n"
@@ -1313,6 +1321,14 @@ class Translator:
                 if is_self(recv, "_recycling_bin") and f.attr == "update" and len(call.args) == 1:
                     self.check_inplace(st, "self._recycling_bin", env)
                     a = self.ex(call.args[0], env)
+                    if a[1] == "dval":
+                        # what a digester handed back, merged as it is: `update` may raise after merging a prefix
+                        u = f"u{self.fresh_no()}"
+                        okc = self.seq(rest, env, k, ind + 1)
+                        rz = self.raise_path(env, call, ind + 1)
+                        return (f"{pad}let {u} := pyDictUpdateM s.bin {a[0]}\n"
+                                f"{pad}let s : PyS := {{ s with bin := {u}.1 }}\n"
+                                f"{pad}if {u}.2 then\n{rz}\n{pad}else\n{okc}")
                     if a[1] != "dict":
                         bad(st, "update of the recycling bin with a non-dict")
                     return f"{pad}let s : PyS := {{ s with bin := dictUpdate s.bin {a[0]} }}\n" + self.seq(rest, env, k, ind)
@@ -1332,6 +1348,15 @@ class Translator:
                             bad(st, f"append of a {a[1]} to a {cur[1]}")
                     elif f.attr == "update" and len(call.args) == 1:
                         a = self.ex(call.args[0], env)
+                        if cur[1] == "dict" and a[1] == "dval":
+                            # what a digester handed back, merged as it is: `update` may raise after merging a prefix
+                            # (the local dict keeps that prefix: it is mutated in place)
+                            u = f"u{self.fresh_no()}"
+                            line, env2 = self.bind(env, recv.id, (f"{u}.1", "dict"))
+                            okc = self.seq(rest, env2, k, ind + 1)
+                            rz = self.raise_path(env2, call, ind + 1)
+                            return (f"{pad}let {u} := pyDictUpdateM {cur[0]} {a[0]}\n{pad}{line}\n"
+                                    f"{pad}if {u}.2 then\n{rz}\n{pad}else\n{okc}")
                         if cur[1] != "dict" or a[1] != "dict":
                             bad(st, f"update of a {cur[1]} with a {a[1]}")
                         val = (f"(dictUpdate {cur[0]} {a[0]})", "dict")
